@@ -56,7 +56,7 @@ pub mod eval {
         /// harness chose for this kind, negated when black is the side being scored
         pub fn stub_eval_piece_type(ev: &mut Evaluator, color: Color, piece: Piece, _b: &Board) {
             let (o, e, g) = unsafe { crate::h_eval::CONTRIB[piece.index()] };
-            unsafe { crate::h_eval::STUB_CALLS += 1; }
+            unsafe { crate::h_eval::EVS.stub_calls += 1; }
             if color == Color::White { ev.opening_score += o; ev.endgame_score += e; } else { ev.opening_score -= o; ev.endgame_score -= e; }
             ev.gamephase += g;
         }
